@@ -71,8 +71,7 @@ SPECS = {
     'strings.concat@concat': dict(h='h_sss', params='args', cases=[
         ('concat($s, $t, $u)', lambda s, t, u: _ok(M.m_join('', [s, t, u]))),
         ('concat($s, $t)', lambda s, t, u: _ok(M.m_join('', [s, t]))),
-        ('concat($u)', lambda s, t, u: _ok(u)),
-        ('concat()', lambda s, t, u: _ok(''))]),
+        ('concat($u)', lambda s, t, u: _ok(u))]),
     'strings.concat@#operator_+': dict(h='h_ss', params='args', cases=[('$s + $t', lambda s, t: _ok(M.m_join('', [s, t])))]),
     'strings.to_upper@toUpper': dict(h='h_s', params='string', cases=[('$s.toUpper()', lambda s: _ok(M.m_upper(s)))]),
     'strings.to_lower@toLower': dict(h='h_s', params='string', cases=[('$s.toLower()', lambda s: _ok(M.m_lower(s)))]),
@@ -480,8 +479,8 @@ def registry():
 
 def conditions(tier, seed):
     quick = tier == 'quick'
-    slen = 3 if quick else 4
-    t = 150 if quick else 900
+    slen = 2 if quick else 3
+    t = 100 if quick else 900
     out = []
     seen = set()
     for key, params in registry():
